@@ -342,8 +342,13 @@ package solvers
 //@ func (*JobSolver).Solve
 //@   props C03 C06
 //@   usestable PodGroupInfo.PodSets map[string]*subgroup_info.PodSet solutionResult.statement JobSolver.generateVictimsQueue
-//@   requires s != nil && ssn != nil && podgroup_info.setsOK(pendingJob) && podgroup_info.allTasksOK(pendingJob)
+//@   requires s != nil && ssn != nil
+//@   assume podgroup_info.setsOK(pendingJob) && podgroup_info.allTasksOK(pendingJob)
+//@   note assume setsOK/allTasksOK (was a requires; exec2): the callers attemptTo* call Solve right after plugin hooks / `modifies *` callees (OnJobSolutionStart, IsNonPreemptibleJobOverQueueQuotaFn), which do not re-establish the job's pod maps - same convention as AllocateJob's `assume`
 //@   requires s.generateVictimsQueue != nil
+//@   # C07 (exec2): the reclaim scenario validator reads the snapshot the job-solution-start hooks take (proportion: copy of the
+//@   # live queue usage); a reclaim solver run must start from a snapshot taken after the last emitted decision
+//@   requires [validationSnapshotFresh] s.actionType == framework.Reclaim ==> framework.snapshotFresh(ssn)
 //@   modifies *
 //@   loop 1
 //@     modifies *
